@@ -548,6 +548,24 @@ theorem decorated_inner (env : Env) (o : Opts) (run : Nat → St → St × Outco
   · exact Preserves.refl s
   · exact hr s hc hs
 
+/-- the bodies of the consumer's own sessions -/
+theorem readBody_inner : InnerOK (fun s : St =>
+    if s.session.isSome then ({ s with trace := s.trace ++ [.saw (s.committed ++ s.pending)] }, Outcome.ret)
+    else (s, Outcome.raise .noSession)) := by
+  intro s _ hs
+  simp only [hs, if_true]
+  exact ⟨rfl, rfl, rfl, rfl, ⟨[], by simp⟩⟩
+
+theorem writeBody_inner (w : Write) : InnerOK (fun s : St => (addWrites s [w], Outcome.ret)) := by
+  intro s _ _
+  exact ⟨rfl, rfl, rfl, rfl, ⟨[w], rfl⟩⟩
+
+theorem betweenRun_inner (env : Env) (b : Between) : InnerOK (betweenRun env b) := by
+  cases b with
+  | none => intro s _ _; exact Preserves.refl s
+  | read => exact cm_inner env {} _ readBody_inner
+  | write w => exact cm_inner env {} _ (writeBody_inner w)
+
 theorem iterGen_inner (env : Env) (o : Opts) (steps : List (Seg × Resume)) : InnerOK (iterGen env o steps) := by
   intro s hc hs
   unfold iterGen
@@ -557,8 +575,16 @@ theorem iterGen_inner (env : Env) (o : Opts) (steps : List (Seg × Resume)) : In
     | nil => exact Preserves.refl s
     | cons st rest =>
       obtain ⟨seg, r⟩ := st
-      simp only [iterLoop, wrappedInteract, hs, if_true]
-      exact Preserves.refl s
+      have hb := betweenRun_inner env seg.before s hc hs
+      simp only [iterLoop]
+      rcases hbr : betweenRun env seg.before s with ⟨s0, bo⟩
+      rw [hbr] at hb
+      cases bo with
+      | raise e => exact hb
+      | ret =>
+        have hs0 : s0.session.isSome = true := by rw [hb.session]; exact hs
+        simp only [wrappedInteract, hs0, if_true]
+        exact hb
 
 theorem flask_inner (env : Env) (hooked : Bool) (view : St → St × Outcome) (hr : InnerOK view) :
     InnerOK (flaskRequest env hooked view) := by
@@ -761,42 +787,70 @@ theorem step_spec (env : Env) (o : Opts) (seg : Seg) (resume : Resume) (s : St) 
   | close => simp [wrappedInteract, rollback, Clean, stepCommits, stepOutSpec, DbSessionGen.genCounterInside, DbSessionGen.genCounterAfter]
   | throw e => simp [wrappedInteract, rollback, Clean, stepCommits, stepOutSpec, DbSessionGen.genCounterInside, DbSessionGen.genCounterAfter]
   | next =>
-    obtain ⟨ws, mc, late, fin⟩ := seg
+    obtain ⟨bf, ws, mc, late, fin⟩ := seg
     cases mc <;> cases fin <;> cases ws <;> cases late <;> cases hf : env.commitFail n <;> cases hf1 : env.commitFail (n + 1) <;>
       simp [wrappedInteract, commit, rollback, addWrites, Clean, stepCommits, stepOutSpec, commitOK, commitErr, hf, hf1,
         DbSessionGen.genCounterInside, DbSessionGen.genCounterAfter]
 
+/-- the consumer's own session while the generator is suspended: it runs like any top-level session (the thread is
+    clean at a suspension), leaves the thread clean, and the database only grows -/
+theorem betweenRun_clean (env : Env) (b : Between) (s : St) (hc : Clean s) :
+    Clean (betweenRun env b s).1 ∧ s.committed <+: (betweenRun env b s).1.committed := by
+  cases b with
+  | none => exact ⟨hc, List.prefix_refl _⟩
+  | read =>
+    have h := cm_top env {} _ s hc readBody_inner.bal rfl
+    refine ⟨h.1, ?_⟩
+    have hp := readBody_inner (entered {} s) (by simp [entered]) (by simp [entered])
+    show s.committed <+: (cm env {} _ s).1.committed
+    rw [h.2.1, hp.committed]
+    exact List.prefix_append _ _
+  | write w =>
+    have h := cm_top env {} _ s hc (writeBody_inner w).bal rfl
+    refine ⟨h.1, ?_⟩
+    show s.committed <+: (cm env {} _ s).1.committed
+    rw [h.2.1]
+    exact List.prefix_append _ _
+
 theorem iterLoop_clean (env : Env) (o : Opts) :
     ∀ (steps : List (Seg × Resume)) (s : St), Clean s →
-      Clean (iterLoop env o steps [] s).1 ∧ s.committed <+: (iterLoop env o steps [] s).1.committed ∧
-      (iterLoop env o steps [] s).1.trace = s.trace := by
+      Clean (iterLoop env o steps [] s).1 ∧ s.committed <+: (iterLoop env o steps [] s).1.committed := by
   intro steps
   induction steps with
-  | nil => intro s hc; exact ⟨hc, List.prefix_refl _, rfl⟩
+  | nil => intro s hc; exact ⟨hc, List.prefix_refl _⟩
   | cons st rest ih =>
     intro s hc
     obtain ⟨seg, r⟩ := st
-    obtain ⟨h1, h2, h3, h4, _⟩ := step_spec env o seg r s hc
+    obtain ⟨hb1, hb2⟩ := betweenRun_clean env seg.before s hc
     simp only [iterLoop]
-    rcases hw : wrappedInteract env o seg r [] s with ⟨s1, copy1, out⟩
-    rw [hw] at h1 h2 h3 h4
-    simp only at h1 h2 h3 h4
-    have hpre : s.committed <+: s1.committed := by rw [h4]; exact List.prefix_append _ _
-    cases out with
-    | yielded =>
+    rcases hbr : betweenRun env seg.before s with ⟨s0, bo⟩
+    rw [hbr] at hb1 hb2
+    cases bo with
+    | raise e => exact ⟨hb1, hb2⟩
+    | ret =>
       dsimp only
-      rw [h2]
-      obtain ⟨i1, i2, i3⟩ := ih s1 h1
-      exact ⟨i1, hpre.trans i2, i3.trans h3⟩
-    | stopped => exact ⟨h1, hpre, h3⟩
-    | raised e => exact ⟨h1, hpre, h3⟩
+      obtain ⟨h1, h2, _, h4, _⟩ := step_spec env o seg r s0 hb1
+      rcases hw : wrappedInteract env o seg r [] s0 with ⟨s1, copy1, out⟩
+      rw [hw] at h1 h2 h4
+      simp only at h1 h2 h4
+      have hpre : s.committed <+: s1.committed := by
+        refine hb2.trans ?_
+        rw [h4]; exact List.prefix_append _ _
+      cases out with
+      | yielded =>
+        dsimp only
+        rw [h2]
+        obtain ⟨i1, i2⟩ := ih s1 h1
+        exact ⟨i1, hpre.trans i2⟩
+      | stopped => exact ⟨h1, hpre⟩
+      | raised e => exact ⟨h1, hpre⟩
 
 theorem iterGen_clean (env : Env) (o : Opts) (steps : List (Seg × Resume)) (s : St) (hc : Clean s) :
     Clean (iterGen env o steps s).1 ∧ s.committed <+: (iterGen env o steps s).1.committed := by
   unfold iterGen
   split
   · exact ⟨hc, List.prefix_refl _⟩
-  · exact ⟨(iterLoop_clean env o steps s hc).1, (iterLoop_clean env o steps s hc).2.1⟩
+  · exact ⟨(iterLoop_clean env o steps s hc).1, (iterLoop_clean env o steps s hc).2⟩
 
 /-! ### Flask -/
 
